@@ -2,14 +2,21 @@
    (205-239) and the functions it dispatches to, statement by statement:
      lower_field_access 250-276, lower_method_access 278-323, lower_unary 325-341, lower_tuple 343-381,
      lower_fn_call 383-475, lower_binary 477-591, lower_if_else 593-651, lower_if_else_or_block 653-661,
-     lower_block 1138-1170 (Declaration with an Id / Wildcard pattern, Expression, final expression).
+     lower_lambda 1071-1136 with create_synthetic_lambda_function 959-1069,
+     lower_block 1138-1170 (Declaration with an Id / Wildcard / flat Tuple pattern - the Tuple arm of
+     lower_matching_pattern 670-717 with Id / Wildcard elements -, Expression, final expression).
 
    STATE of the manager that the modelled functions read or write:
    * `heap.alloc_temp_str()` through allocate_temp_variable: `tmp k` is the k-th name it hands out, the state is
      the counter n.  The ORDER of the allocations is part of the model (it decides which name each statement
      defines): lower_fn_call and lower_tuple draw the return collector BEFORE lowering anything, the && / || arms
      draw their temporary BEFORE the operands (also when a shortcut then leaves it unused), the arithmetic arm,
-     `::`, unary operators and field access AFTER their operands, lower_if_else after the condition.
+     `::`, unary operators and field access AFTER their operands, lower_if_else after the condition, a `let` its
+     late-init variables after the assigned expression (a tuple pattern then one per element, LAST element first),
+     lower_lambda the closure variable, the context variable, a name for a captured `_this`, then the body's.
+     NOTE the names: `Heap::alloc_temp_str` calls a temporary `_t<size of the heap's string table>`, so interning
+     any new string (a synthesized type name, the number of a synthetic function, a folded literal) skips an index:
+     the temporaries of one body are increasing, not consecutive.  The model is parametric in `tmp`.
    * `variable_cx: LocalStackedContext<PStr, hir::Expression>` (samlang-collections local_stacked_context.rs):
      a stack of maps; `get` searches from the top, `insert` writes into the top map, push_scope / pop_scope.
      Every bind_value call of the modelled functions passes `Expression::var_name(..)`, so a scope maps source
@@ -25,7 +32,7 @@
    VERSION switch: `Seeded7` = /verif/seeded/C01-7/patch.diff applied (two early returns in the && / || arms). *)
 From Coq Require Import ZArith NArith List Bool.
 Import ListNotations.
-From SV Require Import Common.Int32 C01expr.Syntax.
+From SV Require Import Common.Int32 C01expr.Syntax C01expr.SrcSem C01expr.HirSem.
 
 Inductive version := Pinned | Seeded7.
 
@@ -65,6 +72,12 @@ Definition is_lit (e : hexpr) (z : Z) : bool := match e with HInt v => Z.eqb v z
 Definition str_lits (a b : expr) : option (list N * list N) :=
   match a, b with EStr x, EStr y => Some (x, y) | _, _ => None end.
 
+Fixpoint index_of (x : name) (l : list name) : option nat :=
+  match l with
+  | [] => None
+  | y :: t => if N.eqb x y then Some O else match index_of x t with Some k => Some (S k) | None => None end
+  end.
+
 Notation res := (list hstmt * hexpr * nat * list (list (name * name)))%type (only parsing).
 Notation resl := (list hstmt * list hexpr * nat * list (list (name * name)))%type (only parsing).
 
@@ -92,6 +105,43 @@ Section Lower.
         | _, _ => (s1 ++ [HIf e1 [] s2 [(t, ONE, e2)]], HVar t)
         end
     end.
+
+  (* `binding_names`: the j-th key of pattern.bindings() gets the j-th temporary drawn from counter n on
+     (a variable of the pattern that is not a key: `unwrap()` would panic; ruled out by Syntax.ns) *)
+  Definition bn_of (bs : list name) (n : nat) (x : name) : name :=
+    match index_of x bs with Some k => tmp (n + k) | None => tmp n end.
+
+  (* lower_matching_pattern on a Tuple pattern whose elements are Id / Wildcard (670-717, 842-851):
+       for (index, nested) in elements.iter().enumerate().rev() {
+         let name = self.allocate_temp_variable();
+         (stmts, ONE) = Id: [LateInitAssignment binding_names[x] := Variable(name)] / Wildcard: []
+         stmts.insert(0, IndexedAccess { name, pointer_expression, index });  stmts.append(acc)   // condition is ONE
+     the LAST element draws first: element i of m draws number (m - 1 - i) after `base` *)
+  Fixpoint tuple_stmts (e : hexpr) (bn : name -> name) (els : list (option name)) (i : nat) (base m : nat) : list hstmt :=
+    match els with
+    | [] => []
+    | el :: t =>
+        let x := tmp (base + (m - 1 - i)) in
+        HIndex x e i :: (match el with Some v => [HAssign (bn v) (HVar x)] | None => [] end) ++ tuple_stmts e bn t (S i) base m
+    end.
+
+  (* the bind_value calls of the Declaration case, one per key, in order *)
+  Fixpoint insert_all (cx : list (list (name * name))) (bs : list name) (n : nat) : list (list (name * name)) :=
+    match bs with
+    | [] => cx
+    | x :: t => insert_all (insert cx x (tmp n)) t (S n)
+    end.
+
+  (* create_synthetic_lambda_function: the name a captured variable has inside the body - itself, except `_this`
+     (the first parameter of the synthetic function is `_this`, the context), which gets the temporary drawn at n1 *)
+  Definition body_name (n1 : nat) (c : name) : name := if N.eqb c this_name then tmp n1 else c.
+  (* the scope stack of the manager made for the body: `ExpressionLoweringManager::new` with the lambda's parameters
+     and the captured variables under their body names (the enclosing manager's defined_variables are chained in too;
+     they are not modelled: every free variable of a checked body is a parameter or captured, theories/C15v), then
+     `_this` rebound to its body name when it is captured *)
+  Definition lambda_cx (caps params : list name) (n1 : nat) : list (list (name * name)) :=
+    let base := [rev (map (fun p => (p, p)) (params ++ map (body_name n1) caps))] in
+    if memb this_name caps then insert base this_name (tmp n1) else base.
 
   Fixpoint lower (e : expr) (cx : list (list (name * name))) (n : nat) {struct e} : res :=
     match e with
@@ -137,15 +187,17 @@ Section Lower.
         (s0 ++ sa ++ [HCall (HCFn f) (r0 :: ra) (if void then None else Some ret)],
          if void then ZERO else HVar ret, n2, cx2)
     | ECallC c args void =>
+        (* `.as_variable().duped().unwrap()` on the lowered callee: a callee that is not a variable makes the
+           compiler itself panic (no literal has a function type, so never for a checked program); the model puts a
+           statement that cannot run in the place of the call *)
         let ret := tmp n in
         let '(s0, r0, n1, cx1) := lower c cx (S n) in
-        match r0 with
-        | HVar fx =>
-            let '(sa, ra, n2, cx2) := lower_args args cx1 n1 in
-            (s0 ++ sa ++ [HCall (HCVar fx) ra (if void then None else Some ret)],
-             if void then ZERO else HVar ret, n2, cx2)
-        | _ => (s0 ++ [HUnreachable], ZERO, n1, cx1)             (* `.as_variable().duped().unwrap()` panics *)
-        end
+        let '(sa, ra, n2, cx2) := lower_args args cx1 n1 in
+        (s0 ++ sa ++ [match r0 with
+                      | HVar fx => HCall (HCVar fx) ra (if void then None else Some ret)
+                      | _ => HUnreachable
+                      end],
+         if void then ZERO else HVar ret, n2, cx2)
     | EMethod o f =>
         let '(s, r, n1, cx1) := lower o cx n in
         let x := tmp n1 in
@@ -172,6 +224,22 @@ Section Lower.
     | EBlock b =>
         let '(s, r, n1, cx1) := lower_blk b (push cx) n in
         (s, r, n1, pop cx1)
+    | ELambda l caps params body =>
+        (* lower_lambda 1071-1136: the captured variables resolved in the order of the map; the closure variable is
+           drawn first, then (if anything is captured) the context variable and its StructInit; then
+           create_synthetic_lambda_function 959-1069 draws a name for a captured `_this` and lowers the body with a
+           manager of its own (new scope stack) that draws from the SAME counter; then the ClosureInit.
+           The body's statements go to the synthetic function (lambda_fn below), not here. *)
+        let clo := tmp n in
+        let captured := map (resolve_variable cx) caps in
+        let '(ctx_s, ctx, n1) :=
+          match caps with
+          | [] => ([], HI31, S n)
+          | _ => ([HStruct (tmp (S n)) captured], HVar (tmp (S n)), S (S n))
+          end in
+        let n2 := if memb this_name caps then S n1 else n1 in
+        let '(_, _, n3, _) := lower body (lambda_cx caps params n1) n2 in
+        (ctx_s ++ [HClosure clo (FLam l) ctx], HVar clo, n3, cx)
     end
   with lower_args (es : exprs) (cx : list (list (name * name))) (n : nat) {struct es} : resl :=
     match es with
@@ -197,6 +265,15 @@ Section Lower.
         let '(s1, r1, n1, cx1) := lower e cx n in
         let '(s2, r2, n2, cx2) := lower_blk b cx1 n1 in
         (s1 ++ s2, r2, n2, cx2)
+    | BLetT bs els e b =>
+        (* assigned expression; one late-init variable per key, declared in key order; then the pattern *)
+        let '(s1, r1, n1, cx1) := lower e cx n in
+        let k := length bs in
+        let m := length els in
+        let decls := map (fun j => HDecl (tmp (n1 + j))) (seq 0 k) in
+        let pat := tuple_stmts r1 (bn_of bs n1) els 0 (n1 + k) m in
+        let '(s2, r2, n2, cx2) := lower_blk b (insert_all cx1 bs n1) (n1 + k + m) in
+        (s1 ++ decls ++ pat ++ s2, r2, n2, cx2)
     | BExp e b =>
         let '(s1, _, n1, cx1) := lower e cx n in
         let '(s2, r2, n2, cx2) := lower_blk b cx1 n1 in
@@ -210,4 +287,156 @@ Section Lower.
 
   Definition lower_body (params : list name) (body : expr) : list hstmt * hexpr * nat :=
     let '(s, r, n, _) := lower body (initial_cx params) 0 in (s, r, n).
+
+  (* the synthetic function of a lambda, made when the counter stands at n1 (after the closure and context variables):
+     parameters `_this` (the context) and the lambda's; one IndexedAccess per captured variable, then the body *)
+  Fixpoint loads (n1 : nat) (caps : list name) (i : nat) : list hstmt :=
+    match caps with
+    | [] => []
+    | c :: t => HIndex (body_name n1 c) (HVar this_name) i :: loads n1 t (S i)
+    end.
+  Definition lambda_fn (caps params : list name) (body : expr) (n1 : nat) : list name * list hstmt * hexpr * nat :=
+    let n2 := if memb this_name caps then S n1 else n1 in
+    let '(s, r, n3, _) := lower body (lambda_cx caps params n1) n2 in
+    (this_name :: params, loads n1 caps 0 ++ s, r, n3).
 End Lower.
+
+(* ------------------------------------------------------------------ vocabulary of the theorems (Proofs*.v, Props.v) *)
+(* scope stack: the keys of the scopes ex / of the bindings s are among B *)
+Definition keys_in (B : list name) (ex : list (list (name * name))) : Prop :=
+  forall s, In s ex -> forall x y, In (x, y) s -> In x B.
+Definition keys_of (B : list name) (s : list (name * name)) : Prop := forall x y, In (x, y) s -> In x B.
+(* what lowering an EXPRESSION may do to the stack: leave scopes on top whose keys are names bound inside it
+   (the scopes lower_if_else does not pop) *)
+Definition extE (B : list name) (cx cx' : list (list (name * name))) : Prop :=
+  exists ex, cx' = ex ++ cx /\ keys_in B ex.
+(* ... and the statements of a BLOCK (run after its push_scope): also add bindings to the top scope *)
+Definition extB (B : list name) (cx cx' : list (list (name * name))) : Prop :=
+  exists ex nw s rest, cx = s :: rest /\ cx' = ex ++ (nw ++ s) :: rest /\ keys_in B ex /\ keys_of B nw.
+
+Section Vocabulary.
+  Variable tmp : nat -> name.
+
+  (* y is not a temporary drawn from counter n on / between n and n' *)
+  Definition low (n : nat) (y : name) : Prop := forall i, (n <= i)%nat -> tmp i <> y.
+  Definition offr (n n' : nat) (y : name) : Prop := forall i, (n <= i)%nat -> (i < n')%nat -> tmp i <> y.
+  (* the statements drawn between n and n' write at most the temporaries drawn there *)
+  Definition frame (n n' : nat) (s s' : name -> option value) : Prop := forall y, offr n n' y -> s' y = s y.
+  (* a result expression that no later statement overwrites *)
+  Definition stable (n : nat) (r : hexpr) : Prop := match r with HVar y => low n y | _ => True end.
+
+  (* every visible source variable resolves to a HIR variable that holds its value and that no later statement
+     writes (it is not a temporary still to be drawn) *)
+  Definition inv (r : name -> option value) (cx : list (list (name * name))) (s : name -> option value) (n : nat) : Prop :=
+    forall x v, r x = Some v -> exists y, resolve cx x = Some y /\ s y = Some v /\ low n y.
+  Definition dom_in (r : name -> option value) (D : list name) : Prop := forall x, r x <> None -> In x D.
+
+  (* what the statements ss with result expression re must do from environment s and history tr, given what the source
+     evaluation does: the same value and history, writing only the temporaries drawn, leaving a stable result; or
+     the same abnormal end (nothing is claimed of a source run that is stuck: ill-typed, excluded by the checker) *)
+  Definition sound (w : world) (s : name -> option value) (tr : trace) (n n' : nat) (ss : list hstmt) (re : hexpr) (o : sres) : Prop :=
+    match o with
+    | SVal v tr' => exists s', exec_block w ss s tr = HNext s' tr' /\ heval s' re = Some v /\ frame n n' s s' /\ stable n' re
+    | SFail f => f <> FStuck -> exec_block w ss s tr = HFail f
+    end.
+  Definition sound_l (w : world) (s : name -> option value) (tr : trace) (n n' : nat) (ss : list hstmt) (rs : list hexpr) (o : lres) : Prop :=
+    match o with
+    | LVal vs tr' => exists s', exec_block w ss s tr = HNext s' tr' /\ hevals s' rs = Some vs /\ frame n n' s s' /\ Forall (stable n') rs
+    | LFail f => f <> FStuck -> exec_block w ss s tr = HFail f
+    end.
+End Vocabulary.
+
+(* same outcome: value and history, or the same abnormal end with the same history *)
+Definition agrees (src : sres) (hir : sres) : Prop :=
+  match src with
+  | SFail FStuck => True
+  | o => hir = o
+  end.
+
+(* ------------------------------------------------------------------ "the statements of every sub-expression are present, in order" *)
+(* `flat` lists the primitive statements of a statement list in textual order (an IfElse contributes the statements of
+   its branches, then itself without them); `parts e cx n` lists the statement lists `lower` obtains for the DIRECT
+   sub-expressions of e (each lowered with the counter and scope stack it really gets), in evaluation order, leaving
+   out exactly those the lowering itself shows dead: the right operand of `&&` / `||` when the left one lowers to a
+   deciding literal, the branch of an `if` whose condition lowers to the other literal. *)
+Fixpoint flat_stmt (s : hstmt) : list hstmt :=
+  match s with
+  | HIf c s1 s2 fas =>
+      (fix go (l : list hstmt) : list hstmt := match l with [] => [] | x :: r => flat_stmt x ++ go r end) s1 ++
+      (fix go (l : list hstmt) : list hstmt := match l with [] => [] | x :: r => flat_stmt x ++ go r end) s2 ++
+      [HIf c [] [] fas]
+  | _ => [s]
+  end.
+Definition flat (ss : list hstmt) : list hstmt := flat_map flat_stmt ss.
+
+(* l consists of the blocks ps, in this order, with anything in between *)
+Fixpoint blocks (ps : list (list hstmt)) (l : list hstmt) : Prop :=
+  match ps with
+  | [] => True
+  | p :: t => exists a b, l = a ++ p ++ b /\ blocks t b
+  end.
+
+Section Parts.
+  Variable ver : version.
+  Variable tmp : nat -> name.
+
+  Fixpoint parts_args (es : exprs) (cx : list (list (name * name))) (n : nat) : list (list hstmt) :=
+    match es with
+    | ENil => []
+    | ECons e t => let '(s1, _, n1, cx1) := lower ver tmp e cx n in s1 :: parts_args t cx1 n1
+    end.
+
+  Fixpoint parts_blk (b : blk) (cx : list (list (name * name))) (n : nat) : list (list hstmt) :=
+    match b with
+    | BEndU => []
+    | BEndE e => let '(s1, _, _, _) := lower ver tmp e cx n in [s1]
+    | BLet (Some x) e b => let '(s1, _, n1, cx1) := lower ver tmp e cx n in s1 :: parts_blk b (insert cx1 x (tmp n1)) (S n1)
+    | BLet None e b => let '(s1, _, n1, cx1) := lower ver tmp e cx n in s1 :: parts_blk b cx1 n1
+    | BLetT bs els e b =>
+        let '(s1, _, n1, cx1) := lower ver tmp e cx n in
+        s1 :: parts_blk b (insert_all tmp cx1 bs n1) (n1 + length bs + length els)
+    | BExp e b => let '(s1, _, n1, cx1) := lower ver tmp e cx n in s1 :: parts_blk b cx1 n1
+    end.
+
+  Definition decides (e : hexpr) (zero : bool) : bool :=
+    match e with HInt v => if zero then Z.eqb v 0 else negb (Z.eqb v 0) | _ => false end.
+
+  Definition parts (e : expr) (cx : list (list (name * name))) (n : nat) : list (list hstmt) :=
+    match e with
+    | EInt _ | EBool _ | EStr _ | EVar _ | EClass => []
+    | EUn _ a | EMethod a _ | EField a _ => let '(s1, _, _, _) := lower ver tmp a cx n in [s1]
+    | EBin _ a b =>
+        let '(s1, _, n1, cx1) := lower ver tmp a cx n in
+        let '(s2, _, _, _) := lower ver tmp b cx1 n1 in [s1; s2]
+    | EConcat a b =>
+        match str_lits a b with
+        | Some _ => []
+        | None =>
+            let '(s1, _, n1, cx1) := lower ver tmp a cx n in
+            let '(s2, _, _, _) := lower ver tmp b cx1 n1 in [s1; s2]
+        end
+    | EAnd a b =>
+        let '(s1, r1, n1, cx1) := lower ver tmp a cx (S n) in
+        let '(s2, _, _, _) := lower ver tmp b cx1 n1 in
+        if decides r1 true then [s1] else [s1; s2]          (* `false && b`: b is dead *)
+    | EOr a b =>
+        let '(s1, r1, n1, cx1) := lower ver tmp a cx (S n) in
+        let '(s2, _, _, _) := lower ver tmp b cx1 n1 in
+        if decides r1 false then [s1] else [s1; s2]         (* `true || b`: b is dead *)
+    | ECallM o _ args _ | ECallC o args _ =>
+        let '(s0, _, n1, cx1) := lower ver tmp o cx (S n) in s0 :: parts_args args cx1 n1
+    | ETuple _ es => parts_args es cx (S n)
+    | EIf c e1 e2 =>
+        let '(sc, rc, n1, cx1) := lower ver tmp c (push cx) n in
+        if is_lit rc 1 then let '(s1, _, _, _) := lower ver tmp e1 cx1 n1 in [sc; s1]
+        else if is_lit rc 0 then let '(s2, _, _, _) := lower ver tmp e2 cx1 n1 in [sc; s2]
+        else
+          let '(s1, _, n2, cx2) := lower ver tmp e1 cx1 (S n1) in
+          let '(s2, _, _, _) := lower ver tmp e2 cx2 n2 in [sc; s1; s2]
+    | EBlock b => parts_blk b (push cx) n
+    | ELambda _ _ _ _ => []
+    end.
+
+  Definition stmts_of (x : list hstmt * hexpr * nat * list (list (name * name))) : list hstmt := fst (fst (fst x)).
+  Definition stmts_of_l (x : list hstmt * list hexpr * nat * list (list (name * name))) : list hstmt := fst (fst (fst x)).
+End Parts.
